@@ -299,14 +299,56 @@ def branch_entries(marks, wm, rule):
     if len(set(marks)) == 1:
         e += ['from_pointisotherm/string', 'model_iso/string', 'from_pointisotherm-list/string']
     if rule:
-        e += ['frame-nomarks', 'guess-frame-nomarks', 'from_pointisotherm/guessed', 'model_iso/guessed', 'from_pointisotherm-list/guessed']
+        e += ['frame-nomarks', 'guess-frame-nomarks', 'from_isotherm-frame-nomarks', 'from_pointisotherm/guessed', 'model_iso/guessed', 'from_pointisotherm-list/guessed']
     return e
+
+
+# row labels of the DataFrame handed to a fitting entry point ('entry@labels'): a table is not always freshly built - it may be a slice of a larger
+# table, a filtered table, two tables concatenated without ignore_index, or carry names.  Rows are taken BY POSITION (the row order is the
+# measurement order); the labels carry no meaning for the fit
+FRAME_LABELS = ['offset', 'gaps', 'shuffled', 'strings', 'concat', 'negative', 'float']
+
+
+def frame_entries(entries, turn):
+    """the entries that take a DataFrame, once more with non-default row labels: every kind of labels for the entries that have to guess the branch of
+    each row themselves (no marks), one kind (rotating) for the others"""
+    out = []
+    for j, e in enumerate(entries):
+        if 'frame' not in e:
+            continue
+        if 'nomarks' in e:
+            out += ['%s@%s' % (e, lab) for lab in FRAME_LABELS]
+        else:
+            out.append('%s@%s' % (e, FRAME_LABELS[(turn + j) % len(FRAME_LABELS)]))
+    return out
+
+
+def relabel(df, labels, nfirst):
+    n = len(df)
+    if labels == 'offset':                        # rows 5.. of a larger table
+        idx = list(range(5, n + 5))
+    elif labels == 'gaps':                        # what a filter leaves
+        idx = [3 * i + (i % 2) for i in range(n)]
+    elif labels == 'shuffled':                    # a table sorted by something else before
+        idx = [(7 * i + 3) % n for i in range(n)] if n % 7 else [(5 * i + 3) % n for i in range(n)] if n % 5 else list(range(n - 1, -1, -1))
+    elif labels == 'strings':
+        idx = ['row%02d' % i for i in range(n)]
+    elif labels == 'concat':                      # two tables concatenated without ignore_index: labels restart with the second block
+        idx = list(range(nfirst)) + list(range(n - nfirst))
+    elif labels == 'negative':
+        idx = list(range(-n, 0))
+    else:
+        idx = [0.5 * i for i in range(n)]
+    out = df.copy()
+    out.index = idx
+    return out
 
 
 def fit_branch_entry(entry, k, P, L, marks, want):
     import pygaps
     import pygaps.modelling as pgm
     from pygaps.core.baseisotherm import BaseIsotherm
+    entry, _, labels = entry.partition('@')
     head, _, how = entry.partition('/')
     cands = [k, 'Henry' if k != 'Henry' else 'Langmuir']
     kw = kw_iso('absolute')
@@ -314,6 +356,8 @@ def fit_branch_entry(entry, k, P, L, marks, want):
     df = pd.DataFrame({'pressure': P, 'loading': L})
     if 'nomarks' not in head and how not in ('bools', 'string', 'guessed'):
         df['branch'] = list(marks)
+    if labels:
+        df = relabel(df, labels, (list(marks) + [1 - marks[0]]).index(1 - marks[0]))
     sel = [j for j, m_ in enumerate(marks) if m_ == wm]
     fkw = dict(isotherm_data=df, pressure_key='pressure', loading_key='loading', branch=want)
     akw = dict(pressure=P[sel], loading=L[sel], branch=want)
@@ -325,7 +369,7 @@ def fit_branch_entry(entry, k, P, L, marks, want):
         return call(pygaps.ModelIsotherm.guess, models=cands, **fkw, **kw)
     if head == 'guess-arrays':
         return call(pygaps.ModelIsotherm.guess, models=cands, **akw, **kw)
-    if head == 'from_isotherm-frame-marks':
+    if head in ('from_isotherm-frame-marks', 'from_isotherm-frame-nomarks'):
         return call(pygaps.ModelIsotherm.from_isotherm, BaseIsotherm(**kw), model=k, **fkw)
     if head == 'from_isotherm-arrays':
         return call(pygaps.ModelIsotherm.from_isotherm, BaseIsotherm(**kw), model=k, **akw)
@@ -853,16 +897,18 @@ def _explore(rep, tier, seed, proxy):
             sel_p, sel_l = P[sel], L[sel]
             mono = bool(np.all(np.diff(sel_p) > 0) or np.all(np.diff(sel_p) < 0))
             oc_ref, ref = call(pygaps.ModelIsotherm, pressure=sel_p, loading=sel_l, model=k, branch=want, **kw_iso('absolute'))
-            for entry in branch_entries(marks, wm, marks_are_max_rule):
+            entries = branch_entries(marks, wm, marks_are_max_rule)
+            for entry in entries + frame_entries(entries, it + wm):
                 replay = dict(kind='branch-nonmonotone', model=k, want=want, shape=shape, entry=entry, p=P.tolist(), l=L.tolist(), marks=list(marks))
                 n0 = len(proxy.calls)
                 oc, iso = fit_branch_entry(entry, k, P, L, marks, want)
                 note('branch-nonmonotone/%s/%s/%s%s' % (shape, entry, oc, '' if not mono else '/monotone'))
                 recs = [c for c in proxy.calls[n0:]]
                 label = 'branch-nonmonotone-' + entry
+                marked = 'rows marked by the branch guess' if ('nomarks' in entry or entry.endswith('/guessed')) else 'marks given by the user'
                 if oc == 'ParameterError':
-                    fail('branch-nonmonotone', '%s refused the %s branch (%d rows, marks given by the user, pressure not monotone: %s) with ParameterError' % (
-                        entry, want, len(sel), shape), replay, k)
+                    fail('branch-nonmonotone', '%s refused the %s branch (%d rows, %s, pressure not monotone: %s) with ParameterError' % (
+                        entry, want, len(sel), marked, shape), replay, k)
                     continue
                 if oc != 'Ok' or not recs:
                     continue          # CalculationError: a reported non-convergence returns nothing to judge
@@ -871,8 +917,8 @@ def _explore(rep, tier, seed, proxy):
                                                     and np.array_equal(np.asarray(c['kw']['args'][1], dtype=float), sel_l))]
                 if bad_rows:
                     used_p = np.asarray(bad_rows[0]['kw']['args'][0], dtype=float)
-                    fail('branch-nonmonotone', '%s on the %s branch (%s; marks given, pressure not monotone): the optimiser received %d rows (pressures %r), the branch has the %d rows %r' % (
-                        entry, want, shape, len(used_p), used_p.tolist(), len(sel_p), sel_p.tolist()), replay, k)
+                    fail('branch-nonmonotone', '%s on the %s branch (%s; %s, pressure not monotone): the optimiser received %d rows (pressures %r), the branch has the %d rows %r' % (
+                        entry, want, shape, marked, len(used_p), used_p.tolist(), len(sel_p), sel_p.tolist()), replay, k)
                     continue
                 m = iso.model
                 # (2) the ranges stored with the model are those of the branch rows
@@ -1013,7 +1059,8 @@ def _explore(rep, tier, seed, proxy):
                              'the adsorption run, scanning loop, turning point marked after the pressure maximum, two cycles in alternating blocks, whole table one branch) x '
                              'both branches x every fitting entry point (constructor with arrays / DataFrame with and without branch column, from_isotherm, guess, '
                              'from_pointisotherm and model_iso on point isotherms whose marks come from a branch column / a list of booleans / branch=\'ads\'|\'des\' / the guess, '
-                             'single model and model list)')
+                             'single model and model list); every entry point that takes a DataFrame once more with non-default row labels (offset, gaps, permuted '
+                             'integers, strings, labels restarting as after concat, negative, float): all 7 kinds where the rows have to be marked by the branch guess, one kind in turn elsewhere')
     rep.cov['correspondence'] = {'terms_compared_in_coq': len(terms), 'disagreements': n_dis,
                                  'what': 'FitLogic (QNum) vs implementation: clamp (exact), rmse^2 with the range computed by the model from the rows handed over (1e-9, sign), '
                                          'bound / start vectors by name from the dictionaries in the user key order (exact), rows handed to the optimiser (exact), best-of-list position'}
